@@ -38,7 +38,7 @@ def gen(args):
     wid, jobs, sd = args
     from harness import selectors as H
     out = []
-    for job in jobs:
+    for job in core.timed(jobs, 1800):
         vi, di, scheds = job[:3]
         N = job[3] if len(job) > 3 else 6
         name, extra, tag = VARIANTS[vi]
